@@ -202,6 +202,11 @@ func IsLinearMul(a, b *Term) bool {
 
 // Div is Euclidean division (SMT-LIB div): the remainder is always >= 0.
 func Div(a, b *Term) *Term {
+	// paired distribution: both operands are ite chains over the same conditions
+	// (numerator / denominator of a normalised rational)
+	if a.Op == OpIte && b.Op == OpIte && Equal(a.Args[0], b.Args[0]) {
+		return Ite(a.Args[0], Div(a.Args[1], b.Args[1]), Div(a.Args[2], b.Args[2]))
+	}
 	if b.Op == OpIntConst && b.K.Sign() != 0 {
 		if a.Op == OpIntConst {
 			q, m := new(big.Int), new(big.Int)
@@ -210,6 +215,10 @@ func Div(a, b *Term) *Term {
 		}
 		if b.K.Cmp(big.NewInt(1)) == 0 {
 			return a
+		}
+		// floor(floor(x/k)/m) = floor(x/(k*m)) for positive constants
+		if b.K.Sign() > 0 && a.Op == OpDiv && a.Args[1].Op == OpIntConst && a.Args[1].K.Sign() > 0 {
+			return Div(a.Args[0], Int(new(big.Int).Mul(a.Args[1].K, b.K)))
 		}
 		return mk(OpDiv, SInt, a, b)
 	}
